@@ -181,6 +181,7 @@ PerMsg(c, o, m, L, ev) ==
   \cup (IF c.ackable /\ valid /\ hooksOk /\ ev.e = "cb_e" /\ endedOk /\ nAck # 1
         THEN {"C02_Once"} ELSE {})
   \cup (IF ~valid /\ nAck > 0 THEN {"C02_AckOfSkipped"} ELSE {})
+  \cup (IF ev.e = "ack" /\ ev.x # m THEN {"C02_AckOfOtherMessage"} ELSE {})
   (* ---------------- C06 ---------------- *)
   \cup (IF (ev.e \in {"dep_open", "dep_opened", "start"} => ev.y \in {0, m}) /\ (ev.e = "start" => ev.x = m)
         THEN {} ELSE {"C06_OwnContext"})
